@@ -160,6 +160,11 @@ class C20(Prop):
                 # ("prev"), or an empty one - the thread is used and updated all the same
                 r["state"] = d.choice(["prev", "prev", "empty"], "statekind", i)
             reqs.append(r)
+        if d.chance(0.2, "twin-threads"):
+            # different threads whose stored histories are byte-identical (everybody says the same thing and gets the same answer)
+            for r in reqs:
+                r["text"] = "hello again #c0t0#"
+                r.pop("extra", None)
         return {"requests": reqs, "family": d.weighted([("seq", 3), ("conc", 2)], "family"), "default_config_id": d.choice([None, None, "cfgA"], "default"), "lat_seed": d.randint(0, 1 << 30, "lat")}
 
     def execute(self, sc):
@@ -197,6 +202,11 @@ class C20(Prop):
         ctx = seams.SimContext(clock=clock)
         seams.install(ctx)
         seams.reset_run_state(ctx)
+        # one run = one server process: memoised helpers of the server module start empty (a run must not see another run's threads)
+        for _name in dir(api):
+            _clear = getattr(getattr(api, _name, None), "cache_clear", None)
+            if callable(_clear):
+                _clear()
         try:
             root = build_tree(base)
             api.app.rails_config_path = root
